@@ -31,6 +31,8 @@ static BYTES: AtomicU64 = AtomicU64::new(0);
 static CALLS: AtomicU64 = AtomicU64::new(0);
 static LIVE: AtomicU64 = AtomicU64::new(0);
 static PEAK: AtomicU64 = AtomicU64::new(0);
+/// set when converting a RETURNED value (common view / JSON) panicked: the call is then reported with outcome "panic_convert"
+static CONVERT_PANIC: AtomicBool = AtomicBool::new(false);
 
 unsafe impl GlobalAlloc for Counting {
     unsafe fn alloc(&self, l: Layout) -> *mut u8 {
@@ -408,7 +410,10 @@ fn do_parse(parser: &mut NetflowParser, op: &Value) -> String {
                     list(&pkts, |p| match catch_unwind(AssertUnwindSafe(|| p.as_netflow_common())) {
                         Ok(Ok(c)) => common(&c),
                         Ok(Err(_)) => "null".to_string(),
-                        Err(_) => "\"panic\"".to_string(),
+                        Err(_) => {
+                            CONVERT_PANIC.store(true, Ordering::Relaxed);
+                            "null".to_string()
+                        }
                     })
                 })
             } else {
@@ -424,16 +429,22 @@ fn do_parse(parser: &mut NetflowParser, op: &Value) -> String {
                                 if x == y { format!("{{\"ok\":{}}}", json_string(&x)) } else { "\"nondeterministic\"".to_string() }
                             }
                             (Ok(Err(_)), _) | (_, Ok(Err(_))) => "\"err\"".to_string(),
-                            _ => "\"panic\"".to_string(),
+                            _ => {
+                                CONVERT_PANIC.store(true, Ordering::Relaxed);
+                                "\"panic\"".to_string()
+                            }
                         }
                     })
                 })
             } else {
                 "[]".into()
             };
+            // a panic while converting a value parse_bytes RETURNED (C01: "converted to the common form and serialized to JSON
+            // without a panic") is an outcome of the call, not an undecodable answer
+            let outcome = if CONVERT_PANIC.swap(false, Ordering::Relaxed) { "panic_convert" } else { "done" };
             format!(
-                "{{\"outcome\":\"done\",\"pkts\":{},\"state\":{},\"exports\":{},\"common\":{},\"json\":{},\"alloc\":{},\"calls\":{},\"peak\":{}}}",
-                list(&pkts, packet), state(parser), exports, commons, jsons, alloc, calls, peak
+                "{{\"outcome\":\"{}\",\"pkts\":{},\"state\":{},\"exports\":{},\"common\":{},\"json\":{},\"alloc\":{},\"calls\":{},\"peak\":{}}}",
+                outcome, list(&pkts, packet), state(parser), exports, commons, jsons, alloc, calls, peak
             )
         }
     }
